@@ -266,7 +266,7 @@ impl EngineInterface for Stub {
 // ------------------------------------------------------------------------------------------------ the node
 
 enum Mode {
-    Run { inbound: sync::prunable_mpsc::Sender<ConsensusReq>, done: Arc<Mutex<Option<bool>>> },
+    Run { inbound: sync::prunable_mpsc::Sender<ConsensusReq>, done: Arc<Mutex<Option<String>>> },
     Step { replica: Option<bft::verif::Replica> },
 }
 
@@ -311,6 +311,7 @@ struct Case {
     /// number -> epochs accepted by verify_payload under the current map snapshot
     verify_ok: BTreeMap<u64, BTreeSet<u64>>,
     verify_snapshot: Value,
+    panics_seen: HashSet<(usize, u64)>,
     /// cursors into the stub logs
     writes_seen: usize,
     reads_seen: usize,
@@ -423,7 +424,7 @@ impl Cepoch {
         let stub = c.stub.clone();
         let Some(life) = c.life.as_ref() else { return };
         let manager = life.manager.clone();
-        let dones: Vec<Arc<Mutex<Option<bool>>>> = life
+        let dones: Vec<Arc<Mutex<Option<String>>>> = life
             .insts
             .values()
             .filter_map(|i| match &i.mode {
@@ -440,7 +441,7 @@ impl Cepoch {
                     stub.reads.lock().unwrap().len(),
                     stub.pending_calls.load(Ordering::SeqCst),
                     stub.pending.lock().unwrap().len(),
-                    dones.iter().map(|d| *d.lock().unwrap()).collect::<Vec<_>>(),
+                    dones.iter().map(|d| d.lock().unwrap().clone()).collect::<Vec<_>>(),
                     (0..8u64).map(|e| manager.validator_schedule(validator::EpochNumber(e)).map(|l| (l.activation_block, l.expiration_block))).collect::<Vec<_>>(),
                 )
             };
@@ -528,14 +529,20 @@ impl Cepoch {
         if let Some(life) = c.life.as_ref() {
             obs.insert("queued".into(), json!(life.manager.queued().next().0));
             let mut done = vec![];
+            let mut how = vec![];
             for (e, inst) in &life.insts {
                 if let Mode::Run { done: d, .. } = &inst.mode {
-                    if d.lock().unwrap().is_some() {
+                    if let Some(h) = d.lock().unwrap().as_ref() {
                         done.push(*e);
+                        if h.starts_with("panic") && c.panics_seen.insert((life_id(life), *e)) {
+                            out.count("instance_panicked_at_teardown");
+                        }
+                        how.push(json!([e, h]));
                     }
                 }
             }
             obs.insert("done".into(), json!(done));
+            obs.insert("_done_how".into(), json!(how));
         }
         // ---- monitors
         let viol: Vec<(String, String)> = std::mem::take(&mut *stub.violations.lock().unwrap());
@@ -726,6 +733,8 @@ impl Cepoch {
     // ---------------------------------------------------------------------------------------- ops
 
     fn exec_inner(&mut self, op: &Value, out: &mut Out) -> Value {
+        let handle = self.rt.handle().clone();
+        let _in_runtime = handle.enter();
         let name = op["op"].as_str().unwrap_or("").to_string();
         out.count(&format!("op:{name}"));
         let mut obs = serde_json::Map::new();
@@ -783,6 +792,7 @@ impl Cepoch {
                     reported: HashSet::new(),
                     verify_ok: BTreeMap::new(),
                     verify_snapshot: json!(null),
+                    panics_seen: HashSet::new(),
                     writes_seen: 0,
                     reads_seen: 0,
                 });
@@ -942,12 +952,16 @@ impl Cepoch {
                     let d = done.clone();
                     let root = life.root.with_deadline(time::Deadline::Infinite);
                     let (stop_tx, stop_rx) = tokio::sync::oneshot::channel::<()>();
-                    let _g = self.rt.enter();
                     let task = tokio::spawn(async move {
                         let _: Result<(), ctx::Error> = scope::run!(&root, |ctx, s| async {
                             s.spawn_bg(async {
-                                let r = cfg.run(ctx, out_send, in_recv).await;
-                                *d.lock().unwrap() = Some(r.is_ok());
+                                // a panic inside the component (it aborts the real node) ends the instance
+                                let r = catch_async(cfg.run(ctx, out_send, in_recv)).await;
+                                *d.lock().unwrap() = Some(match r {
+                                    Ok(Ok(())) => "ok".to_string(),
+                                    Ok(Err(e)) => format!("err:{e:#}"),
+                                    Err(site) => format!("panic:{site}"),
+                                });
                                 Ok(())
                             });
                             let _ = stop_rx.await;
@@ -1154,6 +1168,10 @@ impl Cepoch {
     }
 }
 
+fn life_id(l: &Life) -> usize {
+    Arc::as_ptr(&l.manager) as usize
+}
+
 fn b_epoch(b: &validator::Block) -> validator::EpochNumber {
     match b {
         validator::Block::FinalV2(b) => b.epoch(),
@@ -1284,8 +1302,8 @@ impl G<'_> {
         }
     }
 
-    /// blocks `from..=to` of epoch `e` are proposed, voted and finalized one per view (`view` = view of `from`);
-    /// returns the payload id of the last one
+    /// blocks `from..=to` of epoch `e` are proposed, voted and finalized one per view (block `first_of_epoch` in
+    /// view 1, ...); `ppay` = payload id of block `from - 1`; returns the payload id of the last block produced
     fn produce(&mut self, e: u64, first_of_epoch: u64, from: u64, to: u64, mut ppay: u64) -> u64 {
         for n in from..=to {
             let view = n - first_of_epoch + 1;
@@ -1339,6 +1357,14 @@ impl G<'_> {
     fn case_run(&mut self, variant: u32) {
         let first = *[0u64, 1, 3].get(self.rng.gen_range(0..3)).unwrap();
         let mut t = self.table(first, true);
+        // epoch 0 has 3 or 4 blocks (the schedule task asks for the next schedule once two of them are persisted)
+        let grow = 3 + (variant as u64 / 3) % 2 - (t.0[1] - t.0[0]).min(3 + (variant as u64 / 3) % 2);
+        for a in t.0.iter_mut().skip(1) {
+            *a += grow;
+        }
+        for (i, a) in t.2.iter_mut().enumerate().skip(1) {
+            *a = if i == 1 { first + (variant as u64 % 2) } else { *a + grow };
+        }
         while t.0.len() < 3 {
             let a = t.0[t.0.len() - 1] + 3;
             t.0.push(a);
@@ -1397,7 +1423,10 @@ impl G<'_> {
                 self.ops.push(json!({"op": "persist"}));
                 self.ops.push(json!({"op": "hold", "on": false}));
                 let e1_last = (t.0[2] - 1).min(t.0[1] + 1);
-                let p1 = self.produce(1, t.0[1], t.0[1], e1_last, 0);
+                let p_first = self.produce(1, t.0[1], t.0[1], t.0[1], 0);
+                if e1_last > t.0[1] {
+                    self.produce(1, t.0[1], e1_last, e1_last, p_first);
+                }
                 // killed in the middle of epoch 1, an equivocating leader afterwards
                 self.ops.push(json!({"op": "restart"}));
                 self.ops.push(json!({"op": "tick"}));
@@ -1407,9 +1436,8 @@ impl G<'_> {
                 if e1_last == t.0[1] {
                     self.ops.push(json!({"op": "prop", "e": 1, "view": v, "n": e1_last, "pay": pay2, "just": "t"}));
                 } else {
-                    self.ops.push(json!({"op": "prop", "e": 1, "view": v, "n": e1_last, "pay": pay2, "just": "c", "ppay": 0}));
+                    self.ops.push(json!({"op": "prop", "e": 1, "view": v, "n": e1_last, "pay": pay2, "just": "c", "ppay": p_first}));
                 }
-                let _ = p1;
             }
             _ => {
                 // the write lands late, after more waiting; then a crash right at the boundary and the regular restart
@@ -1417,6 +1445,8 @@ impl G<'_> {
                 self.ops.push(json!({"op": "persist"}));
                 self.ops.push(json!({"op": "hold", "on": false}));
                 self.ops.push(json!({"op": "restart"}));
+                // the executor begins with the first epoch of the map (epoch 0: the last persisted block is its last one)
+                self.ops.push(json!({"op": "spawn", "e": 0}));
                 self.ops.push(json!({"op": "tick"}));
                 self.ops.push(json!({"op": "spawn", "e": 1}));
                 self.produce(1, t.0[1], t.0[1], t.0[1], 0);
